@@ -172,18 +172,16 @@ type memorySizer func(minPages uint32, maxPages *uint32) (min uint32, capacity u
 func newMemorySizer(memoryLimitPages uint32, memoryCapacityFromMax bool) memorySizer {
 	return func(minPages uint32, maxPages *uint32) (min, capacity, max uint32) {
 		if maxPages != nil {
+			max = *maxPages
+			// A value over wasm.MemoryLimitPages is invalid: let it propagate, we will fail later.
+			// Otherwise, it is a valid value, but when it goes over the run-time limit: use the limit.
+			if max <= wasm.MemoryLimitPages && max > memoryLimitPages {
+				max = memoryLimitPages
+			}
 			if memoryCapacityFromMax {
-				return minPages, *maxPages, *maxPages
+				return minPages, max, max
 			}
-			// This is an invalid value: let it propagate, we will fail later.
-			if *maxPages > wasm.MemoryLimitPages {
-				return minPages, minPages, *maxPages
-			}
-			// This is a valid value, but it goes over the run-time limit: return the limit.
-			if *maxPages > memoryLimitPages {
-				return minPages, minPages, memoryLimitPages
-			}
-			return minPages, minPages, *maxPages
+			return minPages, minPages, max
 		}
 		if memoryCapacityFromMax {
 			return minPages, memoryLimitPages, memoryLimitPages
